@@ -23,7 +23,14 @@ func Now() time.Time {
 func Since(t time.Time) time.Duration { return Now().Sub(t) }
 func Until(t time.Time) time.Duration { return t.Sub(Now()) }
 
+// Delays records the delay of every timer requested through AfterFunc (harnesses reset it).
+var Delays []time.Duration
+
 func AfterFunc(d time.Duration, f func()) *time.Timer {
+	Delays = append(Delays, d)
+	if len(Delays) > 1000 {
+		Delays = Delays[len(Delays)-1000:]
+	}
 	if NoTimers {
 		t := time.AfterFunc(time.Hour, func() {})
 		t.Stop()
